@@ -334,8 +334,15 @@ impl<'a, T: LabelType> AnySolver<'a, T> {
 }
 
 pub fn run_query<T: LabelType>(b: &Built<T>, q: &Query, factory: Box<SatSolverFactoryFn>) -> Out {
-    let mut s = make_solver(b, q.kind, q.sem, q.enc, factory);
-    s.query(b, q.kind, &q.args, q.cert)
+    // only used when the caller registered no (more precise) description of its case
+    let note = || {
+        let att: Vec<String> = b.af.iter_attacks().map(|a| format!("{}->{}", a.attacker().label(), a.attacked().label())).collect();
+        format!("{} {:?} cert={} enc={} on a framework with {} arguments, attacks (by label) [{}]", q.problem(), q.args, q.cert, q.enc.name(), b.af.n_arguments(), att.join(","))
+    };
+    crate::mem::with_default_note(&note, || {
+        let mut s = make_solver(b, q.kind, q.sem, q.enc, factory);
+        s.query(b, q.kind, &q.args, q.cert)
+    })
 }
 
 #[derive(Clone, Copy, Debug, PartialEq, Eq)]
